@@ -290,3 +290,8 @@ class Program(object):
             if not dependents.get(command.result_name)
         ):
             command.run()
+
+        # Commands that are part of a cycle have no leaf to start from; running them reports the recursion
+        for command in self.commands.values():
+            if not command.is_finished:
+                command.run()
